@@ -108,6 +108,8 @@ Lossy(v, ty) ==
          [] ty.k = "object" -> \E n \in DOMAIN Attrs(v) : Lossy(Attrs(v)[n], ty.as[n])
          [] OTHER -> FALSE
 JmFailed(e) ==
+  \* bytes handed out by an earlier Marshal call are the caller's: a later call does not rewrite them
+  (IF Has(e, "pb") /\ e.pb # e.pb2 THEN {"C15.DocMirrorsValue", "C20.Immutable"} ELSE {}) \cup
   IF ~e.m.ok THEN (IF e.m.fail = "panic" THEN {"C15.NoPanic"} ELSE {"C15.MarshalAcceptsConformingValue"})
   ELSE (IF e.m.valid THEN {} ELSE {"C15.ValidJSON"})
        \cup (IF (IF HasSetT(e.v.ty) THEN DocEqUnordered(e.m.doc, MarshalModel(e.v, e.ty)) ELSE DocEq(e.m.doc, MarshalModel(e.v, e.ty))) THEN {} ELSE {"C15.DocMirrorsValue"})
